@@ -109,7 +109,46 @@ def gen_spec(rng, small=False):
         "stop": rng.random() < 0.85,
         "timers": rng.choice([0, 0, 1, 2, 3]),
         "sched": rng.getrandbits(32),
+        "ambient": gen_ambient(rng),
     }
+
+
+LEVELS = ["DEBUG", "INFO", "WARNING", "ERROR"]
+
+
+def gen_ambient(rng):
+    """ambient, behaviour-neutral settings (see sim_mech.Ambient); None = the framework's default (logging disabled)"""
+    if rng.random() < 0.4:
+        return None
+    if rng.random() < 0.1:
+        log = {"disable": True, "levels": {"": "DEBUG"}}
+    else:
+        levels = {"": rng.choice(["DEBUG", "DEBUG", "INFO", "INFO", "WARNING"])}
+        for name in ["esrally", "esrally.actor", "esrally.mechanic", "esrally.mechanic.mechanic", "esrally.mechanic.provisioner"]:
+            if rng.random() < 0.3:
+                levels[name] = rng.choice(LEVELS)
+        log = {"disable": False, "levels": levels}
+    return {"log": log, "console": rng.choice(["quiet", "print"]), "build": rng.choice(["distribution", "distribution", "sources", "both"])}
+
+
+def ambient_class(a):
+    """(effective level of the actors' logger, effective level of the Mechanic's logger, console, build)"""
+    if not a:
+        return ["off", "off", "quiet", "distribution"]
+    log = a.get("log") or {}
+    if log.get("disable"):
+        return ["off", "off", a.get("console"), a.get("build")]
+    lv = log.get("levels") or {}
+
+    def eff(name):
+        while True:
+            if name in lv:
+                return lv[name]
+            if not name:
+                return "WARNING"
+            name = name.rpartition(".")[0]
+
+    return [eff("esrally.actor"), eff("esrally.mechanic.mechanic"), a.get("console"), a.get("build")]
 
 
 def gen_histories(ctx):
@@ -155,12 +194,20 @@ SMALL = [
     {"hosts": [[0, 9200], [1, 9200]], "plans": ["ok", "failLaunch"], "convs": [[True, 1]]},
     {"hosts": [[0, 9200], [1, 9200]], "plans": ["failSupply"], "convs": [[True, 1]]},
     {"hosts": [[1, 9200], [2, 9200]], "plans": [], "convs": [[True, 2], [True, 1]]},
-    {"hosts": [[1, 9200], [2, 9200]], "plans": [], "convs": [[True, 1], [False, 1], [True, 2]]},
+    {"hosts": [[1, 9200], [2, 9200]], "plans": [], "convs": [[True, 1], [False, 1], [True, 2]], "stop": False},
+    {"hosts": [[1, 9200]], "plans": [], "convs": [[False, 1], [True, 1]]},
     {"hosts": [[0, 9200], [0, 9201], [0, 9200]], "plans": []},
     {"hosts": [[0, 9200], [1, 9200], [1, 9201]], "plans": ["ok", "ok", ["failPrepare", 0]], "convs": [[True, 1]]},
     {"hosts": [[0, 9200], [1, 9200]], "plans": [], "convs": [], "external": True},
     {"hosts": [[0, 9200], [1, 9200], [2, 9200]], "plans": [], "convs": [[True, 2], [True, 1]], "stop": False},
     {"hosts": [[0, 9200], [0, 9201], [0, 9202]], "plans": ["ok", "failEarly"]},
+    # the same protocol under ambient settings that must be neutral (debug logging everywhere / only for the actors, printing console, source build)
+    {"hosts": [[0, 9200], [1, 9200]], "plans": [], "convs": [[True, 1]],
+     "ambient": {"log": {"disable": False, "levels": {"": "DEBUG"}}, "console": "print", "build": "sources"}},
+    {"hosts": [[0, 9200], [0, 9200], [1, 9200]], "plans": ["ok", "failLaunch"], "convs": [[True, 1]],
+     "ambient": {"log": {"disable": False, "levels": {"": "INFO", "esrally.actor": "DEBUG"}}, "console": "quiet", "build": "both"}},
+    {"hosts": [[0, 9200], [1, 9200]], "plans": [], "convs": [], "external": True,
+     "ambient": {"log": {"disable": False, "levels": {"": "DEBUG"}}, "console": "print", "build": "distribution"}},
 ]
 
 
@@ -170,9 +217,9 @@ def gen_exhaustive(ctx):
     for i, c in enumerate(SMALL):
         if i % ctx.nshards != ctx.shard:
             continue
-        spec = {"external": False, "preserve": False, "raceFound": True, "convs": [], "stop": True, "timers": 0, "sched": 0}
+        spec = {"external": False, "preserve": False, "raceFound": True, "convs": [], "stop": True, "timers": 0, "sched": 0, "ambient": None}
         spec.update(c)
-        yield {"spec": spec, "max_paths": ctx.budget if ctx.tier == "quick" else 200000}
+        yield {"spec": spec, "max_paths": ctx.budget if ctx.tier == "quick" else 120000}
 
 
 # ------------------------------------------------------------------------------------------------
@@ -215,6 +262,8 @@ def oracle(ctx, spec, r):
             ctx.fail("submessage-wrong", a)
         elif a.startswith("cleanup left"):
             ctx.fail("cleanup-wrong", a)
+        elif a.startswith("log record cannot be formatted"):
+            ctx.count("unformattable-log-record")  # not visible in the protocol
         else:
             ctx.diff("simulator anomaly", None, a)
 
@@ -308,9 +357,12 @@ def run_history(ctx, case):
     remotes = len({ip for ip, _ in r["groups"]["keys"] if ip != 0})
     asked = any(o[0] == "recv" and o[3][0] == "startNodes" for t in r["trace"] for o in t["o"])
     sig = [min(H, 4), min(remotes, 2), case["external"], sorted({plan_kind(p) for p in case["plans"]}),
-           sorted({("join" if a else "leave") for a, _ in case["convs"]}), case["stop"], outcome(r), m["status"], r["quiescent"]]
+           sorted({("join" if a else "leave") for a, _ in case["convs"]}), case["stop"], outcome(r), m["status"], r["quiescent"],
+           ambient_class(case.get("ambient"))[:2]]
     ctx.sig(sig, nontrivial=asked or case["external"])
     ctx.count("H=%d" % H)
+    for k, v in zip(("actor-logger", "mechanic-logger", "console", "build"), ambient_class(case.get("ambient"))):
+        ctx.count(f"ambient-{k}:{v}")
     ctx.count("outcome:" + ",".join(outcome(r)))
     ctx.count("events", len(r["trace"]))
     if r["conv_false_while_waiting"]:
@@ -325,7 +377,8 @@ def run_inject(ctx, case):
     kinds = sorted({(t["e"][2] if t["e"][2][0] != "n" else "node", t["e"][3][0]) for t in r["trace"] if t["e"][0] == "inject"})
     guards = sum(1 for t in r["trace"] for o in t["o"] if o[0] == "send" and o[3][:2] == ["failure", "guard"])
     dead = sum(1 for t in r["trace"] for o in t["o"] if o[0] == "dead")
-    ctx.sig([kinds[:3], min(guards, 2), min(dead, 1), m["status"]], nontrivial=bool(kinds))
+    ctx.sig([kinds[:3], min(guards, 2), min(dead, 1), m["status"], ambient_class(case.get("ambient"))[0]], nontrivial=bool(kinds))
+    ctx.count("ambient-actor-logger:" + ambient_class(case.get("ambient"))[0])
     ctx.count("guard-failures", guards)
     ctx.count("dead-letters", dead)
 
@@ -398,8 +451,8 @@ def run_exhaustive(ctx, case):
         prefix = nxt
     ctx.fail = report
     ctx.count("schedules", paths)
-    ctx.notes[json.dumps([spec["hosts"], spec["plans"], spec["convs"], spec["external"], spec["stop"]])] = {"schedules": paths, "complete": complete, "outcomes": sorted(outcomes)}
-    ctx.sig([spec["hosts"], spec["plans"], sorted(outcomes), complete], nontrivial=True)
+    ctx.notes[json.dumps([spec["hosts"], spec["plans"], spec["convs"], spec["external"], spec["stop"], ambient_class(spec.get("ambient"))])] = {"schedules": paths, "complete": complete, "outcomes": sorted(outcomes)}
+    ctx.sig([spec["hosts"], spec["plans"], sorted(outcomes), complete, ambient_class(spec.get("ambient"))], nontrivial=True)
 
 
 STREAMS = [
